@@ -13,7 +13,7 @@ use std::collections::BTreeMap;
 pub const SPEC: PropSpec = PropSpec {
     id: "C07",
     level: "exploration",
-    rule: "Cases = (document bytes, target type, entry point from_str / from_reader with piece size 1 or whole). Documents: serializations of generated family values under token-level mutation (insert / delete / duplicate / swap / splice of start tags, end tags, empty tags, text, whitespace, CDATA, comments, DOCTYPE between any tokens incl. between two texts, PIs, XML declarations, valid / unknown / zero / unterminated entity and character references, xsi:nil with and without its namespace declaration, duplicate and malformed attributes, BOM), truncation at every byte, and token soup with no valid base. Targets: the 16 family types, the 6 overlapped-list shapes and 22 further targets (String, numbers, bool, char, unit, tuple, Option, Vec, HashMap/BTreeMap, a struct with an IgnoredAny field, unit struct, Option fields without skip, enums). Every call runs under catch_unwind; a panic is a violation (signature = file:line + message); a case that makes no progress for 30 s (and again 90 s when re-run alone in journal mode) is a violation; Ok and Err are both fine. Non-trivial = the document reached the deserializer with at least one start tag.",
+    rule: "Cases = (document bytes, target type, entry point from_str / from_reader with piece size 1 or whole). Documents: serializations of generated family values under token-level mutation (insert / delete / duplicate / swap / splice of start tags, end tags, empty tags, text, whitespace, CDATA, comments, DOCTYPE between any tokens incl. between two texts, PIs, XML declarations, valid / unknown / zero / unterminated entity and character references, xsi:nil with and without its namespace declaration, duplicate and malformed attributes, BOM), truncation at every byte, and token soup with no valid base. Targets: every family type, every overlapped-list shape, the optional-content types and about 110 further targets (String, numbers, bool, char, unit, tuples, top-level compositions of Option / Vec / unit / maps, HashMap/BTreeMap with typed keys, IgnoredAny, one-field holders with any kind of type in $text / $value / attribute / element position, $text variants of every kind, flatten, untagged / internally / adjacently tagged enums, serde_json::Value, byte buffers, tuple structs); the evidence lists them under targets.*. Each worker caps its address space, so a case that allocates without bound ends as a reported worker death. Every call runs under catch_unwind; a panic is a violation (signature = file:line + message); a case that makes no progress for 30 s (and again 90 s when re-run alone in journal mode) is a violation; Ok and Err are both fine. Non-trivial = the document reached the deserializer with at least one start tag.",
     assumptions: &["documents are valid UTF-8 strings for from_str (the API requires &str); from_reader additionally receives the same bytes", "termination is decided by the stall detector on logical progress (cases finished), not by a deadline on the whole run"],
     required: &["docs_with_start_tag", "results.ok", "results.err", "entry.from_str", "entry.from_reader", "mutation.doctype_between_texts", "mutation.insert", "mutation.delete", "mutation.duplicate", "mutation.splice", "mutation.truncate", "mutation.soup", "mutation.xsi_nil_attr", "mutation.attr_added", "targets_seen_all"],
     run,
@@ -51,6 +51,9 @@ pub const ATOMS: &[&str] = &[
     "&#x41", "&", "&;", "<t_a xsi:nil=\"true\"/>", "<t_a xmlns:xsi=\"http://www.w3.org/2001/XMLSchema-instance\" xsi:nil=\"true\"/>",
     "<s_inner xmlns:xsi=\"http://www.w3.org/2001/XMLSchema-instance\" xsi:nil=\"true\" a_id=\"2\">", "<t_s a=\"1\" a=\"2\">", "<t_s a=1>", "<t_s a>", "<t_s a=\"1>", "<t_s =\"1\">",
     "</>", "<>", "< >", "</ t_s>", "<t_s", "<", ">", "]]>", "\u{FEFF}", "<$text>", "<@a/>", "<xml:x/>", "<a:b xmlns:a=\"u\"/>", "<t_pair>p</t_pair>", "<k_m>", "</k_m>", "<key>v</key>",
+    // skipped elements that declare or re-bind the xsi prefix and have children of their own
+    "<unknown xmlns:xsi=\"http://www.w3.org/2001/XMLSchema-instance\"><v/><w/></unknown>", "<unknown xmlns:xsi=\"http://www.w3.org/2001/XMLSchema-instance\"><v>t</v> </unknown>",
+    "<unknown xmlns:xsi=\"u\"><v/></unknown>", "<unknown><v xmlns:xsi=\"http://www.w3.org/2001/XMLSchema-instance\"><w/></v>t</unknown>",
 ];
 
 pub const ATTR_ATOMS: &[&str] = &[
@@ -84,7 +87,29 @@ pub fn mutate_tokens(r: &mut Rng, doc: &str, other: &str, loc: &mut Local) -> St
     }
     let n = 1 + r.below(4);
     for _ in 0..n {
-        match r.below(10) {
+        match r.below(11) {
+            9 => {
+                // a skipped element that declares (or re-binds) xsi before a sibling whose xsi:nil depends
+                // on what is in scope *there*: right after the root's start tag, and xsi:nil="true"
+                // (without a declaration of its own) on a later start / empty tag
+                let tags: Vec<usize> = (1..parts.len()).filter(|i| parts[*i].starts_with('<') && parts[*i].ends_with('>') && !parts[*i].starts_with("</") && !parts[*i].starts_with("<!") && !parts[*i].starts_with("<?")).collect();
+                let root_ok = parts[0].starts_with('<') && parts[0].ends_with('>') && !parts[0].starts_with("</") && !parts[0].starts_with("<!") && !parts[0].starts_with("<?");
+                if !tags.is_empty() && root_ok {
+                    let i = tags[r.below(tags.len())];
+                    let t = parts[i].clone();
+                    let cut = if t.ends_with("/>") { t.len() - 2 } else { t.len() - 1 };
+                    parts[i] = format!("{} xsi:nil=\"true\"{}", &t[..cut], &t[cut..]);
+                    let probe = *r.pick(&ATOMS[ATOMS.len() - 4..]);
+                    parts.insert(1, probe.to_string());
+                    if r.bool() {
+                        // ... with xsi properly bound on the root, so that a re-binding inside the skipped element matters
+                        let t0 = parts[0].clone();
+                        let c0 = if t0.ends_with("/>") { t0.len() - 2 } else { t0.len() - 1 };
+                        parts[0] = format!("{} xmlns:xsi=\"http://www.w3.org/2001/XMLSchema-instance\"{}", &t0[..c0], &t0[c0..]);
+                    }
+                    *loc.muts.entry("mutation.scope_probe").or_insert(0) += 1;
+                }
+            }
             0 | 1 => {
                 let i = r.below(parts.len() + 1);
                 parts.insert(i, r.pick(ATOMS).to_string());
